@@ -92,6 +92,7 @@ func DumpParamNames(out string) {
 				}
 			}
 			for k, v := range load.DeclaredGlobals(pk.Types) {
+				k = id + "|" + k
 				dup := false
 				for _, x := range globals[k] {
 					if x == v {
@@ -103,9 +104,7 @@ func DumpParamNames(out string) {
 				}
 			}
 			for k, v := range load.DeclaredFuncs(pk.Types) {
-				if _, ok := sigs[k]; !ok {
-					sigs[k] = v
-				}
+				sigs[id+"|"+k] = v // per configuration: a function of another back end is not "missing"
 			}
 		}
 		for _, fn := range p.ModuleFuncs() {
